@@ -23,6 +23,9 @@ pub enum Ast {
     Tuple(Vec<Ast>),
     /// `;` sequence (at least two elements)
     Chain(Vec<Ast>),
+    /// `e op` — a binary operator whose right operand is missing (malformed, but the tree builder
+    /// accepts it; evaluation must evaluate `e` and then fail on the operand count)
+    Partial(BinOp, Box<Ast>),
 }
 
 pub const PREC_VALUE: i32 = 200;
@@ -31,6 +34,9 @@ pub const PREC_PREFIX: i32 = 110;
 pub const PREC_ASSIGN: i32 = 50;
 pub const PREC_TUPLE: i32 = 40;
 pub const PREC_CHAIN: i32 = 0;
+/// pseudo-precedence of an incomplete operator application: parenthesised everywhere except as a
+/// chain element or at top level, so that nothing can follow its operator
+pub const PREC_PARTIAL: i32 = 1;
 
 impl Ast {
     /// README precedence of the top operator of this expression.
@@ -43,6 +49,7 @@ impl Ast {
             Ast::Call(_, _) => PREC_CALL,
             Ast::Tuple(_) => PREC_TUPLE,
             Ast::Chain(_) => PREC_CHAIN,
+            Ast::Partial(_, _) => PREC_PARTIAL,
         }
     }
 
@@ -50,7 +57,7 @@ impl Ast {
         match self {
             Ast::Var(_) | Ast::Lit(_) | Ast::Unit => 0,
             Ast::Bin(_, l, r) => 1 + l.size() + r.size(),
-            Ast::Pre(_, e) | Ast::Asg(_, _, e) | Ast::Call(_, e) => 1 + e.size(),
+            Ast::Pre(_, e) | Ast::Asg(_, _, e) | Ast::Call(_, e) | Ast::Partial(_, e) => 1 + e.size(),
             Ast::Tuple(es) | Ast::Chain(es) => 1 + es.iter().map(|e| e.size()).sum::<usize>(),
         }
     }
@@ -120,6 +127,10 @@ pub fn ast_to_nt(a: &Ast) -> NT {
         Ast::Chain(es) => NT {
             label: ";".into(),
             kids: es.iter().map(ast_to_nt).collect(),
+        },
+        Ast::Partial(op, e) => NT {
+            label: op.sym().into(),
+            kids: vec![ast_to_nt(e)],
         },
     }
 }
@@ -293,7 +304,7 @@ impl Renderer {
         match a {
             Ast::Var(_) | Ast::Lit(_) | Ast::Unit => 1,
             Ast::Bin(_, l, r) => 1 + Self::positions(l) + Self::positions(r),
-            Ast::Pre(_, e) | Ast::Asg(_, _, e) | Ast::Call(_, e) => 1 + Self::positions(e),
+            Ast::Pre(_, e) | Ast::Asg(_, _, e) | Ast::Call(_, e) | Ast::Partial(_, e) => 1 + Self::positions(e),
             Ast::Tuple(es) | Ast::Chain(es) => 1 + es.iter().map(Self::positions).sum::<usize>(),
         }
     }
@@ -388,6 +399,10 @@ impl Renderer {
                     }
                     self.expr(e, e.prec() <= PREC_CHAIN, false);
                 }
+            },
+            Ast::Partial(op, e) => {
+                self.expr(e, e.prec() < op.prec(), false);
+                self.out.push(Tok::Sym(op.sym()));
             },
         }
     }
@@ -569,7 +584,7 @@ pub fn name_leaves(a: &mut Ast, lit_at: Option<(usize, &RV)>) -> usize {
                 go(l, v, f, t, lit_at);
                 go(r, v, f, t, lit_at);
             },
-            Ast::Pre(_, e) => go(e, v, f, t, lit_at),
+            Ast::Pre(_, e) | Ast::Partial(_, e) => go(e, v, f, t, lit_at),
             Ast::Asg(_, name, e) => {
                 *name = TARGET_NAMES[*t % TARGET_NAMES.len()].to_string();
                 if *t >= TARGET_NAMES.len() {
@@ -603,7 +618,7 @@ pub fn count_var_leaves(a: &Ast) -> usize {
         Ast::Var(_) => 1,
         Ast::Lit(_) | Ast::Unit => 0,
         Ast::Bin(_, l, r) => count_var_leaves(l) + count_var_leaves(r),
-        Ast::Pre(_, e) | Ast::Asg(_, _, e) | Ast::Call(_, e) => count_var_leaves(e),
+        Ast::Pre(_, e) | Ast::Asg(_, _, e) | Ast::Call(_, e) | Ast::Partial(_, e) => count_var_leaves(e),
         Ast::Tuple(es) | Ast::Chain(es) => es.iter().map(count_var_leaves).sum(),
     }
 }
